@@ -134,6 +134,15 @@ def value_strategy(ann: Any, cls: type, fname: str, depth: int, ge=None, le=None
     raise TypeError(f"no strategy for {ann!r} ({cls.__name__}.{fname})")
 
 
+def _respellings(wire: str) -> List[str]:
+    import re as _re
+
+    if not any(c.isupper() for c in wire):
+        return []
+    snake = _re.sub(r"([A-Z])", lambda m: "_" + m.group(1).lower(), wire)
+    return [snake, wire.lower(), wire[0].upper() + wire[1:], snake.replace("_", "-")]
+
+
 def _envelope_override(cls: type, f: Dict[str, Any]):
     """The envelope classes declare error as Dict[str, Any] but require {code:int, message:str, data?}."""
     if f["name"] == "error" and cls.__module__.endswith("json_rpc_message"):
@@ -187,6 +196,13 @@ def wire_strategy(draw, cls: type, depth: int = 3, all_aliases: bool = False, ex
         obj["values"] = obj["values"][:100]
     if extras and depth > 0 and draw(st.integers(0, 2)) == 0:
         taken = {f["wire"] for f in fs} | {f["name"] for f in fs}
+        # other spellings of the declared members (snake_case / lower-case / Capitalised of a camelCase name): to the
+        # library these are unknown members like any other and travel untouched
+        respelt = sorted({sp for f in fs for sp in _respellings(f["wire"])} - taken)
+        if respelt and draw(st.integers(0, 2)) == 0:
+            k = draw(st.sampled_from(respelt))
+            src = next(f for f in fs if k in _respellings(f["wire"]))
+            obj[k] = draw(st.one_of(st.integers(0, 5), json_text, st.just({"n": [1, None]}), value_strategy(src["annotation"], cls, src["name"], 1, src["ge"], src["le"])))
         # unknown members: vendor extensions of every spelling, and `_meta`, which the MCP schema reserves on every object
         for k in draw(st.lists(st.sampled_from(["x-extra", "vendor", "futureField", "é", "extra_", "_meta", "_meta", "_x", "__dunder__", "$schema", "snake_case", "0", "with space"]), max_size=2, unique=True)):
             if k not in taken:
@@ -230,6 +246,25 @@ def deterministic_value(ann: Any, cls: type, fname: str, depth: int = 2) -> Any:
     if inspect.isclass(ann) and issubclass(ann, McpPydanticBase):
         return {f["wire"]: deterministic_value(f["annotation"], ann, f["name"], depth - 1) for f in fields_of(ann) if f["required"]}
     raise TypeError(f"no deterministic value for {ann!r}")
+
+
+def explicit_nulls(cls: type):
+    """For every member declared nullable (Optional[...]): the required members plus that member present with the value
+    null - what a peer that serialises without dropping empty members puts on the wire."""
+    fs = fields_of(cls)
+    if cls.__name__ == "JSONRPCMessage" and cls.__module__.endswith("json_rpc_message"):
+        return
+    base: Dict[str, Any] = {}
+    for f in fs:
+        if f["required"]:
+            if f["name"] == "error" and cls.__module__.endswith("json_rpc_message"):
+                base[f["wire"]] = {"code": -32000, "message": "m"}
+            else:
+                base[f["wire"]] = deterministic_value(f["annotation"], cls, f["name"])
+    for f in fs:
+        ann = _resolve(f["annotation"], cls)
+        if not f["required"] and typing.get_origin(ann) is typing.Union and type(None) in typing.get_args(ann):
+            yield f["wire"], dict(base, **{f["wire"]: None})
 
 
 def optional_subsets(cls: type, max_optional: int = 6):
